@@ -622,6 +622,8 @@ _ADD10 = {
             " SENTINELUSE: a narrow member that its module stores as (v > MAX) ? 0 : v (path.first: 0 stands for 'does not fit, search again') is used as a number only in the files that contain such stores; elsewhere it is compared or assigned, never taken for the length."),
     "C08": ([{"run": rules_types.run_sentineluse, "floor": 2}], " SENTINELUSE (see C09)."),
     "C10": ([{"run": rules_types.run_sentineluse, "floor": 2}], " SENTINELUSE (see C09)."),
+    "C20": ([{"run": rules_layout.run_convfailok, "floor": 50}],
+            " RESETWRITES (clause of RESETSAME): where a setter's branch has no reset of its own and hands the possibly null source to a helper together with a pointer into the object, the helper's no-source path stores through that pointer. CONVFAILOK: sign analysis of the local that keeps the answer of src->convert(): no constant success return of a setter is reached while it may be negative (a refused conversion answered with success, nothing stored)."),
     "C11": ([{"run": rules_event.run_scanall, "floor": 3, "use_anchor_files": True}],
             " SCANALL: a walk over handler slots is not left because the slot at hand is empty, unless that empty slot is what the function delivers or fills (tables have holes after an unregistration)."),
     "C13": ([{"run": rules_path.run_maxstore, "floor": 3, "use_anchor_files": True}],
